@@ -149,6 +149,50 @@ theorem table_desegmenter_under_guard :
       (lockTable.lookup n).map opClass = some "write") := by
   decide +kernel
 
+/-- **Which public ops are single-view** (generated: `views` over the regenerated table, see
+`Model/Conc.lean`).  Every op listed here takes at most ONE view of the chain state: one interval
+under `header_pmmr` / `txhashset`, or one lock-free LMDB read.  By `table_commits_under_ts_write`
+nothing is published while such an interval holds `txhashset`, so everything the op returns is
+read from one committed state (`readers_see_committed`, one observation).  The harness applies its
+"data read under one view is mutually consistent" oracles to ops of this list only (`conc views`
+lines). -/
+theorem table_single_view_ops :
+    ∀ n ∈ ["get_unspent", "get_unspent_output_at", "validate_inputs", "get_merkle_proof", "get_merkle_proof_for_pos",
+           "get_last_n_output", "get_last_n_rangeproof", "get_last_n_kernel", "get_output_pos",
+           "unspent_outputs_by_pmmr_index", "get_header_for_output", "get_header_for_kernel_index",
+           "get_locator_hashes", "set_txhashset_roots", "head", "tail", "header_head", "head_header", "get_block",
+           "get_block_header", "get_previous_header", "get_block_sums", "block_exists",
+           "Segmenter::kernel_segment", "Segmenter::bitmap_segment", "Segmenter::output_segment",
+           "Segmenter::rangeproof_segment", "process_block_header", "sync_block_headers", "reset_chain_head",
+           "reset_chain_head_to_genesis"],
+      (lockTable.lookup n).map views = some 1 := by
+  decide +kernel
+
+/-- **Which are not**: the complete list of ops that combine two or more views (with the count the
+translator sees; branches are emitted one after the other, so alternatives add up).  What such an
+op returns may mix several committed states - in commit order (`multi_view_reads_ordered`), nothing
+more is claimed: `get_header_by_height` (hash under `header_pmmr.read()`, header by hash from LMDB
+afterwards - harmless, headers are immutable by hash), `get_kernel_height`,
+`block_height_range_to_pmmr_indices`, `fork_point`, `is_known`, the archive-header look-ups,
+`validate_tx` / `verify_coinbase_maturity` (read-lock path then write-lock path), `validate` (head
+header read before the locks), `segmenter`, `compact`, `process_block` (header step, body step,
+orphans).  Any change of chain.rs that moves an op into or out of this list breaks the theorem. -/
+theorem table_multi_view_ops :
+    (lockTable.filter (fun e => decide (views e.2 ≥ 2))).map (fun e => (e.1, views e.2)) =
+      [("process_block", 16), ("is_known", 2), ("validate_tx", 2), ("verify_coinbase_maturity", 4), ("validate", 2),
+       ("txhashset_read", 2), ("segmenter", 6), ("txhashset_archive_header", 5),
+       ("txhashset_archive_header_header_only", 3), ("fork_point", 4), ("txhashset_write", 8), ("compact", 8),
+       ("block_height_range_to_pmmr_indices", 5), ("get_header_by_height", 2), ("get_kernel_height", 8),
+       ("Desegmenter::check_progress", 2), ("Desegmenter::validate_complete_state", 4),
+       ("Desegmenter::apply_next_segments", 7), ("Desegmenter::next_desired_segments", 7)] := by
+  decide +kernel
+
+/-- the view counter sees what it should -/
+example : views [.acq .hp .R, .acq .ts .R, .mark .dbread, .rel .ts, .rel .hp] = 1 := by decide
+example : views [.acq .hp .R, .rel .hp, .mark .dbread] = 2 := by decide
+example : views [.mark .dbread, .mark .dbread] = 2 := by decide
+example : views [.acq .orph .R, .rel .orph] = 0 := by decide
+
 /-- the table is not empty / not all lock-free (the translator found the locks) -/
 example : (lockTable.filter (fun e => !isLockFree e.2)).length ≥ 30 := by decide +kernel
 
@@ -306,6 +350,19 @@ newest first), and never ahead of the current one. -/
 theorem observations_monotone (s0 : Shared D M) (s : St D M) (log : List (Nat × Obs D M))
     (h : Run s0 s log) : log.Pairwise (fun a b => b.1 ≤ a.1) ∧ ∀ e ∈ log, e.1 ≤ s.k :=
   run_log_monotone s0 s log h
+
+/-- **What an op that combines several views gets** (the ops of `table_multi_view_ops`, and any
+caller that combines `head()` with a later locked read): each of its views is a state of the
+sequential commit history, and they come in commit order - a later view is never of an older state
+than an earlier one.  (The log is newest first.) -/
+theorem multi_view_reads_ordered (s0 : Shared D M) (s : St D M) (log : List (Nat × Obs D M))
+    (h : Run s0 s log) :
+    log.Pairwise (fun later earlier => earlier.1 ≤ later.1 ∧
+      (∃ c, s.hist.reverse[later.1]? = some c ∧ obsMatches later.2 c) ∧
+      (∃ c, s.hist.reverse[earlier.1]? = some c ∧ obsMatches earlier.2 c)) := by
+  have hm := (run_log_monotone s0 s log h).1
+  have hc := run_obs_committed s0 s log h
+  exact hm.imp_of_mem (fun {a b} ha hb hab => ⟨hab, hc a.1 a.2 ha, hc b.1 b.2 hb⟩)
 
 /-- Writers are serial: every committed state was computed from the immediately preceding
 committed state (the history records, with each entry, the base its op started from). -/
